@@ -1647,6 +1647,11 @@ impl OutstationSession {
         frame_id: u32,
         object_headers: HeaderCollection<'_>,
     ) -> Option<Response> {
+        // every SELECT, even one that is rejected, replaces an earlier select
+        if let ControlType::Select = ct {
+            self.state.select = None;
+        }
+
         let controls = match ControlCollection::from(object_headers) {
             Err(err) => {
                 tracing::warn!(
